@@ -1145,6 +1145,9 @@ def run(ctx, rep):
     rep.rule('R05.2', 'every front-end loop makes progress on every iteration; recursion consumes input (TRM)')
     rep.rule('R05.3', 'every object::Error produced in the pipeline is propagated or deliberately handled')
     rep.rule('R05.4', 'the command-line front end does not unwrap what parse/compile_ast return')
+    rep.rule('R05.5', 'a program that calls without end fails with an error: the number of call frames is bounded by a test with an error edge (it is not the host running out of memory that ends it)')
+    from rules import c12 as _c12
+    _c12.check_frame_depth(ctx, rep, 'R05.5')
     sites = psc.census(ctx)
     rep.count('panic_sources', len(sites))
     rep.count('reachable_functions', len(psc.reachable(ctx)))
